@@ -210,18 +210,28 @@ def canonical_union(n):
     return texts == sorted(texts)
 
 
-def typing_cache_stable(s):
-    """Every typing Union/Optional that is a direct argument of a typing construct in s is canonical."""
-    for n in walk(s):
-        args = []
-        if n[0] in ("typing", "union"):
-            args = n[2] if n[0] == "typing" else n[1]
-        elif n[0] == "optional":
-            args = [n[1]]
-        for a in args:
-            if a[0] in ("union", "optional") and not canonical_union(a):
-                return False
-    return True
+def typing_cache_stable(s, under_typing=False):
+    """Every typing Union/Optional that occurs (at any depth, also inside PEP 585 generics, whose == compares their
+    arguments) below a typing construct in s is canonical."""
+    k = s[0]
+    if k in ("union", "optional") and under_typing and not canonical_union(s):
+        return False
+    below = under_typing or k in ("typing", "union", "optional")
+    if k in UNIQUE_HEADS:
+        below = False                 # a fresh Field instance: never equal to an earlier argument
+    if k in ("typing", "pep585", "sub", "ctorN"):
+        kids = s[2]
+    elif k == "union":
+        kids = s[1]
+    elif k == "optional":
+        kids = [s[1]]
+    elif k == "or":
+        kids = [s[1], s[2]]
+    elif k == "ctor1":
+        kids = [s[2]]
+    else:
+        kids = []
+    return all(typing_cache_stable(a, below) for a in kids)
 
 
 def flat_leaves(n):
